@@ -155,6 +155,8 @@ for _n, _t, _q in [("c08_default_normalization_3distinct", "(300,400,700)", "qui
 for _n, _t, _q in [("c08_unmapped_3distinct", "(100,400,900)", "quick"), ("c08_unmapped_default_at_max", "(0,1,1)", "thorough")]:
     H(_n, "C08", "fontdrasil", "coords", tier=_q, funcs=[C + "::CoordConverter::unmapped", C + "::CoordConverter::new"],
       bound="concrete (min,default,max) = " + _t + "; probe symbolic on the quarter-step grid", oracle="identity user->design inside the range; default->0, min->-1, max->+1")
+H("c08_user_coord_to_fixed_in_range", ["C08", "C19"], "fontdrasil", "coords", flags=CHECKED_FLAGS, funcs=[C + "::From<UserCoord> for Fixed"],
+  bound="any f64 in (-32768, 32767)", oracle="stored 16.16 value within half a step; integers exact")
 H("c08_f2dot14_exact_on_grid", "C08", "fontdrasil", "coords", funcs=[C + "::Coord<NormalizedSpace>::to_f2dot14"],
   bound="k/4 grid in [-1,1]", oracle="2.14 conversion exact")
 
